@@ -49,11 +49,16 @@ pub struct Ctx {
     pub fun_used: bool,
     /// fold arithmetic on literal constants (used by entries that pin some inputs to literals)
     pub fold: bool,
+    /// integer mode: Rust evaluates eagerly, so every arithmetic node computed on a path must be defined on it even when
+    /// no decision or result of that path uses it (set by the integer entry points, read by the explorer)
+    pub eager: bool,
 }
 
 thread_local! {
     pub static CTX: RefCell<Ctx> = RefCell::new(Ctx { max_depth: 4096, ..Default::default() });
 }
+
+pub fn set_eager(b: bool) { CTX.with(|c| c.borrow_mut().eager = b); }
 
 pub fn reset_arena() {
     CTX.with(|c| {
